@@ -162,6 +162,10 @@ NOTES = {
     'C15-breakdown-eps-from-vector-dtype': 'round 3, first run: MISSED. r_C15 has single-precision start vectors with operators of norm 1e-5..1e-3',
     'C15-expm-general-eigendecomposition': 'round 3, first run: MISSED. r_C15 / r_C14 have defective matrices (Jordan blocks in a unitary basis)',
     'C01-left-qr-next-tensor-cast': 'round 3, first run: MISSED. r_C01 has per-site mixed entry kinds (real, complex and integer site tensors in one object)',
+    'C03-sparse-matrix-dtype-of-first-site': 'round 3, first run: MISSED. The generators of r_C03 can give every site tensor its own entry kind (real first site, complex later ones)',
+    'C03-from-vector-bond-qnums-before-truncation': 'round 4, first run: MISSED by C03. from_vector cases check the class invariant of the result, use it in a sum, and include basis vectors',
+    'C14-lanczos-shared-workspace': 'round 4, first run: MISSED. r_C14 calls each routine a second time with arguments of the same size and compares the first result; engine F has the obligation `no_state_kept_across_calls` (module-level mutable variables, globals, mutable defaults, caching decorators in the reachable pytenet functions)',
+    'C15-eigh-krylov-select-range': 'round 4, first run: MISSED. r_C15 asks for more eigenpairs than the Krylov space has',
     'C06-zero-coeff-filter-tolerance': 'first run: MISSED. r_C06 now includes parameter points scaled by 1e-9 ... 1e+12 (every parameter value is legal)',
 }
 
